@@ -339,7 +339,18 @@ def commands_for(state, tasks, root):
 
 # ----------------------------------------------------------------------------- canonical observations
 _TIME_RE = re.compile(r"\(Ran for [0-9.]+ (seconds|minutes|hours)[^)]*\)")
-_LOC_RE = re.compile(r"^(Would delete|Deleting|✨ Done! Archive saved as) (.*)$")
+_LOC_RES = []
+
+
+def _loc_re():
+    """lines that end with a location: gc's two messages (their wording is learnt from the code under test, see
+    c13.wording) and archive's"""
+    if not _LOC_RES:
+        import c13  # pylint: disable=import-outside-toplevel
+
+        heads = {"Would delete", "Deleting", "✨ Done! Archive saved as", c13.wording("-n").rstrip(" "), c13.wording("-v").rstrip(" ")}
+        _LOC_RES.append(re.compile(r"^(%s) (.*)$" % "|".join(re.escape(h) for h in sorted(heads, key=len, reverse=True) if h)))
+    return _LOC_RES[0]
 
 
 def canon_stdout(text, cwd, known):
@@ -348,7 +359,7 @@ def canon_stdout(text, cwd, known):
     locs = []
     for ln in implrun.strip_ansi(text).splitlines():
         ln = _TIME_RE.sub("(Ran for <T>)", ln)
-        m = _LOC_RE.match(ln)
+        m = _loc_re().match(ln)
         if m:
             locs.append((m.group(1), m.group(2)))
             ln = m.group(1) + " " + os.path.normpath(os.path.join(cwd, m.group(2)))
